@@ -99,6 +99,8 @@ class World:
             return Dataset(m, descriptors={'subj': 's1'}, obs_descriptors=od, channel_descriptors=cd), Shadow(ou, cu, None)
         m = np.array([[[1e4 * o + 1e2 * c + t for t in tu] for c in cu] for o in ou], dtype=float)
         m = m.reshape(len(ou), len(cu), len(tu))
+        if (len(ou) + len(cu) + len(tu)) % 2:
+            m = np.asfortranarray(m)      # column-major storage (a MATLAB file, a transposed time x channel x trial array)
         td = {'time': np.array([t * 0.25 for t in tu])}
         return (TemporalDataset(m, descriptors={'subj': 's1'}, obs_descriptors=od, channel_descriptors=cd,
                                 time_descriptors=td), Shadow(ou, cu, tu))
